@@ -41,6 +41,16 @@ def judge_c06(ctx, funcs, segs, outs, meta):
     for si, (seg, (res, _)) in enumerate(zip(segs, outs)):
         for step, rec in zip(seg["steps"], res["steps"]):
             f = funcs[step["f"]]
+            if step.get("op") == "clear":
+                ctx.count("clears_in_the_middle_of_a_history")
+                if "exc" in rec:
+                    ctx.violation("clear-raised", f"{step['what']} clear raised {rec['exc']}", dict(step=step, **meta))
+                    return
+                # cleared entries are gone: the whole store, or every entry of that function (all instances / classes share its directory)
+                for key in list(model):
+                    if step["what"] == "memory" or key[0] == step["f"]:
+                        del model[key]
+                continue
             c, p = rec["cached"], rec["plain"]
             sig = tuple(tuple(s) for s in f["sig"])
             sstr = f"{f['kind']} {gen_sig.sig_str(sig)} ignore={f['ignore']}"
